@@ -174,14 +174,24 @@ class MemStorage(ExternalStorage):
         )
 
 
+class SizedMemStorage(MemStorage):
+    """The same store written as a container of what it holds: ``len()`` is the number of stored objects, so a freshly
+    configured one is *falsy* — configuration must be tested with ``is not None``, never by truthiness."""
+
+    def __len__(self) -> int:
+        return self.n
+
+
 def make_server(storage: str = "none", describe: bool = False) -> tuple[RpcServer, SvcImpl]:
-    """Build the RpcServer.  ``storage`` ∈ {none, config_only, storage}."""
+    """Build the RpcServer.  ``storage`` ∈ {none, config_only, storage, storage_sized}."""
     impl = SvcImpl()
     ext: ExternalLocationConfig | None = None
     if storage == "config_only":
         ext = ExternalLocationConfig(storage=None)
     elif storage == "storage":
         ext = ExternalLocationConfig(storage=MemStorage(), externalize_threshold_bytes=1 << 30)
+    elif storage == "storage_sized":
+        ext = ExternalLocationConfig(storage=SizedMemStorage(), externalize_threshold_bytes=1 << 30)
     srv = RpcServer(Svc, impl, external_location=ext, server_id="verif-srv", enable_describe=describe)
     return srv, impl
 
